@@ -56,6 +56,9 @@ class Result:
         self.transitions += st.get("decisions", 0)
         self.queries += st.get("solver_calls", 0)
         self.solver_time_s += st.get("solver_time_ms", 0) / 1000.0
+        if st.get("xcheck_agree") or st.get("xcheck_unknown"):
+            x = self.extra.setdefault("second_solver_cross_check", {"solver": "cvc5 1.0 on the SMT-LIB text of sampled z3 queries", "agree": 0, "no_verdict": 0})
+            x["agree"] += st.get("xcheck_agree", 0); x["no_verdict"] += st.get("xcheck_unknown", 0)
 
 
 def write_evidence(ctx, res, wall):
@@ -89,6 +92,8 @@ def main(argv=None):
     ap.add_argument("--replay", default=None)
     a = ap.parse_args(argv)
     seed = int(os.environ.get("VERIF_SEED", "0") or 0)
+    if a.tier == "thorough":
+        os.environ.setdefault("VERIF_XCHECK", "400")      # thorough: 1 of 400 solver queries is re-decided by cvc5 (read when vf.interp is imported by the harness)
     ctx = Ctx(a.pid, a.tier, seed)
     try:
         mod = importlib.import_module("vf.h_" + a.pid.lower())
